@@ -15,6 +15,10 @@
 (*        and the same identifying hash                                    *)
 (*   Inv.FixedPoint.lost / .content / .hash:<kind>  a second pass changes  *)
 (*        what the first pass delivered (any in-memory value)              *)
+(* RoundTrip events of the retention family (inter = same-goroutine /      *)
+(* other-goroutine: another value was serialised between Marshal and the   *)
+(* parse of the kept bytes) and of the concurrency family (inter =         *)
+(* concurrent) are judged by the same laws, the tag carries the family.    *)
 (* Conformance tags (the reference says more than the statement)           *)
 (*   norm:<kind>         x1 is not the documented normal form of x         *)
 (*   parse-class:<kind>  object/error differs from the req/opt tags and the *)
@@ -41,6 +45,7 @@ NormOf(kind, x) ==
                           Transactions |-> [nil |-> FALSE, l |-> NormTxs(x.Transactions.l)]]
     [] kind = "group" -> [f \in DOMAIN GroupKinds \cup {"Header"} |->
                             IF f = "Header" THEN NormRec(GHeaderKinds, x.Header) ELSE NormField(GroupKinds[f], x[f])]
+    [] kind = "member" -> NormRec(MemberKinds, x)
 
 ContentOf(kind, x) ==
   CASE kind = "tx" -> ContentRec(TxKinds, x)
@@ -49,12 +54,13 @@ ContentOf(kind, x) ==
     [] kind = "block" -> <<ContentRec(HeaderKinds, x.Header), ContentTxs(x.Transactions.l)>>
     [] kind = "group" -> <<ContentRec(GHeaderKinds, x.Header),
                            [f \in DOMAIN GroupKinds |-> Content(GroupKinds[f], x[f])]>>
+    [] kind = "member" -> ContentRec(MemberKinds, x)
 
 ProducibleOf(kind, x) ==
   CASE kind \in {"tx", "txs"} -> TRUE
     [] kind = "header" -> ProducibleRec(HeaderKinds, x)
     [] kind = "block" -> ProducibleRec(HeaderKinds, x.Header)
-    [] kind = "group" -> TRUE
+    [] kind \in {"group", "member"} -> TRUE
 
 IsObj(p) == p.res = "object"
 
@@ -64,20 +70,28 @@ Strong(kind, e, x, x1, h0, h1, p1) ==
   ELSE Tag(ContentOf(kind, x1) = ContentOf(kind, x), "Inv.RoundTrip.content:" \o kind) \o
        Tag(h1 = h0, "Inv.RoundTrip.hash:" \o kind)
 
+StrongT(kind, who, x, x1, h0, h1, p1) ==
+  IF ~IsObj(p1) THEN <<"Inv.RoundTrip.lost:" \o who>>
+  ELSE Tag(ContentOf(kind, x1) = ContentOf(kind, x), "Inv.RoundTrip.content:" \o who) \o
+       Tag(h1 = h0, "Inv.RoundTrip.hash:" \o who)
+
 PanicTag(kind, p) == IF p.res \in {"panic", "marshal-panic"}
                      THEN <<"Inv.Total.panic:" \o kind \o ":" \o p.where>> ELSE <<>>
 
 JudgeRoundTrip(e) ==
-  LET k == e.kind IN
+  \* events of the retention / concurrency families carry how the codec was used in between
+  LET k == IF e.inter = "none" THEN e.kind ELSE e.kind \o ":" \o e.inter IN
   PanicTag(k, e.pass1) \o
   (IF ~IsObj(e.pass1)
      THEN (IF e.pass1.res \in {"panic", "marshal-panic"} THEN <<>>
            ELSE IF e.pass1.res = "neither" THEN <<"Inv.Total.neither:" \o k>>
+           ELSE IF ProducibleOf(e.kind, e.x) THEN <<"Inv.RoundTrip.lost:" \o k>>
            ELSE <<"Inv.FixedPoint.lost:" \o k>>)
-   ELSE Tag(e.x1 = NormOf(k, e.x), "norm:" \o k) \o
-        (IF ProducibleOf(k, e.x) THEN Strong(k, e, e.x, e.x1, e.h0, e.h1, e.pass1) ELSE <<>>) \o
+   ELSE Tag(e.x1 = NormOf(e.kind, e.x), "norm:" \o k) \o
+        (IF ProducibleOf(e.kind, e.x) THEN StrongT(e.kind, k, e.x, e.x1, e.h0, e.h1, e.pass1) ELSE <<>>) \o
         PanicTag(k, e.pass2) \o
-        (IF ~IsObj(e.pass2) THEN <<"Inv.FixedPoint.lost:" \o k>>
+        (IF e.pass2.res = "skipped" THEN <<>>
+         ELSE IF ~IsObj(e.pass2) THEN <<"Inv.FixedPoint.lost:" \o k>>
          ELSE Tag(e.x2 = e.x1, "Inv.FixedPoint.content:" \o k) \o
               Tag(e.h2 = e.h1, "Inv.FixedPoint.hash:" \o k)))
 
